@@ -70,6 +70,42 @@ def check_case(lines, obs):
             sv, iv, ov = [[pv(x) for x in p.split(" ") if x] for p in parts]
             d = dsets[t[3]]
             stocks.append((t[1], t[2], Arr(d, sv), Arr(d, iv), Arr(d, ov)))
+        elif t[0] == "balance" and ob.startswith("ok "):
+            # the balance of every process: all its contributions, each summed to the dimensions
+            # common to all of them (in the order of the first one), added up by label
+            contrib = {p: [] for p in procs}
+            for name, a, b, arr in flows:
+                contrib[a].append((arr, -1))
+                contrib[b].append((arr, 1))
+            for name, proc, sv, iv, ov in stocks:
+                if proc == "-":
+                    continue
+                contrib[proc].append((iv, -1)); contrib[proc].append((ov, 1))
+                contrib["sysenv"].append((iv, 1)); contrib["sysenv"].append((ov, -1))
+            got = {}
+            for part in ob[3:].split(" ; "):
+                nm, body = part.split("=", 1)
+                got[nm] = body
+            for p in procs:
+                cs = contrib[p]
+                if p not in got:
+                    return fail(ln, "every process has a balance", p, sorted(got))
+                vals_txt = got[p].split(" | ", 1)[1].split() if " | " in got[p] else []
+                if not cs:
+                    if any(pv(v) != 0 for v in vals_txt if v != "nan"):
+                        return fail(ln, f"a process without flows or stocks ({p}) balances to zero", 0, got[p])
+                    continue
+                common = [d for d in cs[0][0].dims if all(d[0] in c[0].letters for c in cs)]
+                total = {}
+                for arr, sign in cs:
+                    for k, v in margin(arr, common, sign).items():
+                        total[k] = add(total.get(k, Fraction(0)), v)
+                labs = list(itertools.product(*[d[1] for d in common]))
+                want = [total[l] for l in labs]
+                have = [("nan" if v == "nan" else pv(v)) for v in vals_txt]
+                if have != want:
+                    return fail(ln, f"the balance of {p}: inflows minus outflows minus stock changes, summed to the common dimensions by label",
+                                [str(w) for w in want][:8], [str(h) for h in have][:8])
         elif t[0] == "tol" and ob.startswith("ok "):
             vals = [v for f in flows for v in f[3].data.values()] + [v for s in stocks for v in s[2].data.values()]
             if any(v == "nan" for v in vals):
